@@ -57,6 +57,92 @@ def gen_case(rng, thorough):
                 ignore=rng.random() < 0.5, fmt=rng.choice(["nan", "tuple", "plain0"]))
 
 
+def build_dims(iindex, arrs, commons):
+    dims = []
+    for a, com in zip(arrs, commons):
+        if a.ndim <= 2:
+            dims.append(iindex.from_array(a, common=com) if (com is not None or a.size) else iindex({}, 0, a.shape))
+        else:
+            # from_array handles 1-D/2-D; build 3-D directly from the dense array
+            com3 = com if com is not None else 0
+            ents = {}
+            for hc in itertools.product(*[range(e) for e in a.shape[1:]]):
+                col = a[(slice(None),) + hc]
+                for v in sorted(set(col.tolist())):
+                    if v != com3:
+                        ents[(int(v),) + hc] = numpy.nonzero(col == v)[0].astype(numpy.uint32)
+            dims.append(iindex(ents, com3, a.shape))
+    return dims
+
+
+HISTORY_OPS = ["difference_update-whole-entry", "difference_update-part", "del", "pop", "setitem-shorter", "union_update-common-rows"]
+
+
+def gen_history_op(rng, dims):
+    """One legitimate IN-PLACE change of a multi-axis dimension, as a JSON-able record (None when there is nothing to change)."""
+    cands = [k for k, d in enumerate(dims) if len(d.shape) >= 2 and len(d) > 0]
+    if not cands:
+        return None
+    k = rng.choice(cands)
+    d = dims[k]
+    key = rng.choice(sorted(dict.keys(d)))
+    rows = [int(x) for x in d[key]]
+    op = rng.choice(HISTORY_OPS)
+    if op in ("difference_update-part", "setitem-shorter") and len(rows) < 2:
+        op = "difference_update-whole-entry"
+    rec = {"dim": k, "op": op, "key": [int(x) for x in key]}
+    if op == "difference_update-part":
+        rec["rows"] = sorted(rng.sample(rows, rng.randint(1, len(rows) - 1)))
+    elif op == "setitem-shorter":
+        rec["rows"] = sorted(rng.sample(rows, rng.randint(1, len(rows) - 1)))
+    elif op == "union_update-common-rows":
+        used = set()
+        for kk, rr in dict.items(d):
+            if tuple(kk[1:]) == tuple(key[1:]):
+                used.update(int(x) for x in rr)
+        free = [r for r in range(d.shape[0]) if r not in used]
+        if not free:
+            rec["op"] = "difference_update-whole-entry"
+        else:
+            rec["rows"] = sorted(rng.sample(free, rng.randint(1, len(free))))
+    return rec
+
+
+def apply_history_op(dims, rec):
+    d = dims[rec["dim"]]
+    key = tuple(rec["key"])
+    arr = lambda xs: numpy.array(xs, dtype=numpy.uint32)
+    op = rec["op"]
+    if op == "difference_update-whole-entry":
+        d.difference_update({key: d[key]})
+    elif op == "difference_update-part":
+        d.difference_update({key: arr(rec["rows"])})
+    elif op == "del":
+        del d[key]
+    elif op == "pop":
+        d.pop(key)
+    elif op == "setitem-shorter":
+        d[key] = arr(rec["rows"])
+    elif op == "union_update-common-rows":
+        d.union_update({key: arr(rec["rows"])})
+
+
+def history_blocks(ccube, cube, dims, c, agg):
+    """[(block j, observed, cube over the dims sliced at j NOW)] for the index cube `cube` over `dims`."""
+    res = call(cube, agg, c, c["fmt"])
+    out = []
+    for j in itertools.product(*[range(e) for d in dims for e in d.shape[1:]]):
+        pos, sub = 0, []
+        for d in dims:
+            n = len(d.shape) - 1
+            hc = j[pos:pos + n]
+            pos += n
+            sub.append(d.sliced(*hc) if hc else d)
+        want = call(ccube(sub, interacting_shape=c["ishape"]), agg, c, c["fmt"])
+        out.append((j, block(res, j), want))
+    return out
+
+
 def call(cube, agg, c, fmt):
     rma = float("nan") if fmt == "nan" else ((0, False) if fmt == "tuple" else 0)
     kw = dict(ignore_missing=c["ignore"], return_missing_as=rma)
@@ -106,20 +192,7 @@ def run(ctx):
     blocks_compared = 0
     for ci in range(ncases):
         c = gen_case(ctx.rng, thorough)
-        dims = []
-        for a, com in zip(c["arrs"], c["commons"]):
-            if a.ndim <= 2:
-                dims.append(iindex.from_array(a, common=com) if (com is not None or a.size) else iindex({}, 0, a.shape))
-            else:
-                # from_array handles 1-D/2-D; build 3-D directly from the dense array
-                com3 = com if com is not None else 0
-                ents = {}
-                for hc in itertools.product(*[range(e) for e in a.shape[1:]]):
-                    col = a[(slice(None),) + hc]
-                    for v in sorted(set(col.tolist())):
-                        if v != com3:
-                            ents[(int(v),) + hc] = numpy.nonzero(col == v)[0].astype(numpy.uint32)
-                dims.append(iindex(ents, com3, a.shape))
+        dims = build_dims(iindex, c["arrs"], c["commons"])
         # a RELATION between arguments: the very same index object (and dense array) listed as two dimensions of one cube
         # (a memo keyed by id(dim), or a generator shared by two positions, only shows then)
         if len(dims) >= 1 and ctx.rng.random() < 0.2 and numpy.prod([e for s in c["shapes"] for e in s] + [e for e in c["shapes"][0]], dtype=int) <= (48 if thorough else 24):
@@ -197,6 +270,40 @@ def run(ctx):
                     if not same(got, want):
                         oracle_fail.append({"case": ci, "cube": kind, "aggregate": agg, "block": list(j),
                                             "observed_block": repr(got), "sliced_cube_result": repr(want), "input": describe(c)})
+        # HISTORY on the dimension objects (seeded c13h: slices1d cached its buckets on the index and an entry removed through
+        # dict.pop survived in the cache): after the evaluations above, change a multi-axis dimension IN PLACE through
+        # legitimate index operations and evaluate again - the kept cube and a freshly built one - against the cube over
+        # the dimensions sliced NOW
+        if not c.get("same_object_twice") and ctx.rng.random() < 0.35:
+            hist = []
+            for _round in range(ctx.rng.choice([1, 2, 2, 3])):
+                rec = gen_history_op(ctx.rng, dims)
+                if rec is None:
+                    break
+                try:
+                    apply_history_op(dims, rec)
+                except Exception as e:
+                    oracle_fail.append({"case": ci, "cube": "ccube", "aggregate": "-", "error": "in-place %s raised %r" % (rec["op"], e),
+                                        "input": describe(c), "history": hist + [rec]})
+                    break
+                hist.append(rec)
+                dist.setdefault("history_ops", {})
+                dist["history_ops"][rec["op"]] = dist["history_ops"].get(rec["op"], 0) + 1
+                for which, cube in (("kept", cc), ("fresh", ccube(dims, interacting_shape=c["ishape"]))):
+                    for agg in AGGS:
+                        try:
+                            hb = history_blocks(ccube, cube, dims, c, agg)
+                        except Exception as e:
+                            oracle_fail.append({"case": ci, "cube": "ccube", "aggregate": agg, "error": repr(e), "input": describe(c), "history": list(hist),
+                                                "cube_object": which})
+                            continue
+                        for j, got, want in hb:
+                            blocks_compared += 1
+                            if not same(got, want):
+                                oracle_fail.append({"case": ci, "cube": "ccube", "aggregate": agg, "block": list(j), "cube_object": which,
+                                                    "observed_block": repr(got), "sliced_cube_result": repr(want), "input": describe(c),
+                                                    "history": list(hist),
+                                                    "how": "build the index dimensions, evaluate once, apply `history` in place, evaluate again"})
         ctx.evaluations += 1
         if ci < 3:
             ctx.samples.append({"shapes": [list(s) for s in c["shapes"]], "N": c["N"], "commons": c["commons"],
@@ -252,6 +359,23 @@ def replay(ctx, path):
         fact = numpy.array([[float("nan") if x is None else x for x in row] for row in i["fact"]]).reshape(i["fact_shape"])
         w = None if i["weights"] is None else numpy.array([float("nan") if x is None else x for x in i["weights"]])
         c = dict(fact=fact, weights=w, ignore=i["ignore_missing"])
+        if f.get("history") and "block" in f:
+            from catii import ccube, iindex
+            c.update(fmt=i["format"], ishape=tuple(i["interacting_shape"]))
+            dims = build_dims(iindex, arrs, i["commons"])
+            kept = ccube(dims, interacting_shape=c["ishape"])
+            for agg in AGGS:
+                call(kept, agg, c, c["fmt"])
+            for rec in f["history"]:
+                apply_history_op(dims, rec)
+            cube = kept if f.get("cube_object") == "kept" else ccube(dims, interacting_shape=c["ishape"])
+            for j, got, want in history_blocks(ccube, cube, dims, c, f["aggregate"]):
+                ok = same(got, want)
+                if not ok or list(j) == f["block"]:
+                    print("after the history, block", j, "ok" if ok else "DIFFERS", got, want)
+                bad += 0 if ok else 1
+            ctx.evaluations += 1
+            continue
         xarrs = [forms.reform(a, t) for a, t in zip(arrs, i.get("xcube_array_forms") or [""] * len(arrs))]
         xc = xcube(xarrs, interacting_shape=tuple(i["interacting_shape"]))
         res = call(xc, f["aggregate"], c, i["format"])
